@@ -25,8 +25,11 @@ KINDS = {
     'binary': ['xspace', 'cl', 'binary'],
     'gzip': ['fold', 'chunked1', 'gzip'],
     'repeat': ['canon', 'cl', 'text'],       # fixed URL /same -> revisit under dedup
+    'junk': ['junkline', 'cl', 'text'],      # header block with a colon-less line
+    'n404': ['canon', 'n404', 'text'],
 }
-ORDER = ['canon', 'lfonly', 'chunked_tr', 'empty', 'binary', 'repeat', 'nospace', 'gzip']
+ORDER = ['canon', 'lfonly', 'chunked_tr', 'empty', 'binary', 'repeat', 'nospace', 'gzip',
+         'junk']
 BITS = ['compress', 'digests', 'cdx', 'rollover', 'preexisting', 'log', 'extra', 'dedup']
 
 SAME_URL = 'http://h.test/same'
@@ -109,11 +112,29 @@ def sequences(maxlen, kinds):
     return out
 
 
-def jobs(tier, seed, force_cdx=False):
+CONC_ITEMS = [[['canon', 'cl', 'text'], ['lf', 'cl', 'binary']],
+              [['canon', 'chunked_ext', 'text'], ['canon', 'cl0', 'text']],
+              [['junkline', 'cl', 'text'], ['canon', 'close', 'text']]]
+
+
+def conc_jobs(tier):
     js = []
+    for compress in (False, True):
+        for roll in (None, 1, 900):
+            for items in (CONC_ITEMS if tier != 'quick' or roll == 1 else CONC_ITEMS[:1]):
+                rec = dict(compress=compress, digests=True, cdx=True, log=False)
+                if roll:
+                    rec['max_size'] = roll
+                js.append(dict(kind='concurrent', rec=rec, items=items,
+                               chunk=48 if tier == 'quick' else 24))
+    return js
+
+
+def jobs(tier, seed, force_cdx=False):
+    js = conc_jobs(tier)
     if tier == 'quick':
         cfgs = pairwise_configs()
-        seqs = sequences(1, ORDER) + [list(p) for p in itertools.product(ORDER[:6], repeat=2)]
+        seqs = sequences(1, ORDER) + [list(p) for p in itertools.product(ORDER[:6] + ['junk'], repeat=2)]
     else:
         cfgs = all_configs()
         seqs = sequences(2, ORDER) + [list(p) for p in
@@ -127,7 +148,43 @@ def jobs(tier, seed, force_cdx=False):
     return js
 
 
+def run_concurrent_job(job, judge_name=None):
+    from vt.explore import explore, Outcome
+    judge = getattr(warcsuite, judge_name or JUDGE)
+    pid = PROPERTY if judge_name is None else judge_name[-3:].upper()
+
+    def run(params, chooser):
+        case, result = warcsuite.run_concurrent(params, chooser)
+        problems = list(judge(case, result))
+        if result['drive'] != 'ok':
+            problems.append('sessions did not finish: %s' % result['drive'])
+        problems += ['session task raised %s' % e for e in result['task_errors']]
+        v = problems[0] if problems else None
+        sig = None
+        if v:
+            sig = '%s:%s:concurrent' % (pid, warcsuite.classify(v))
+        return Outcome(violation=v and '%s [overlapping sessions, rec %s]' % (v, params['rec']),
+                       signature=sig, obs=dict(env=result['env'], problems=problems[:3]),
+                       states=[h64(tuple(result['env'][:i])) for i in range(len(result['env']))],
+                       transitions=len(result['env']),
+                       outcome_key='files=%d problems=%d' % (
+                           len([f for f in result['files'] if '.warc' in f]), len(problems)))
+    params = dict(rec=job['rec'], items=job['items'], chunk=job['chunk'])
+    st = explore(run, params, 0, max_exec=4000)
+    for v in st.violations:
+        v['kind'] = 'concurrent'
+        v['judge'] = judge_name or JUDGE
+    return dict(evaluations=st.executions, states=st.states, transitions=st.transitions,
+                outcomes=st.outcomes, violations=st.violations, cap_hit=st.cap_hit,
+                samples=[dict(kind='overlapping sessions', rec=job['rec'],
+                              interleavings=st.executions)],
+                distinct={h64(('conc', repr(job['rec']), repr(job['items'])))}, extra={
+                    'interleavings': st.executions})
+
+
 def run_job(job, judge_name=None):
+    if job.get('kind') == 'concurrent':
+        return run_concurrent_job(job, judge_name)
     judge = getattr(warcsuite, judge_name or JUDGE)
     res = dict(evaluations=0, states=set(), transitions=0, outcomes={}, violations=[],
                samples=[], distinct=set(), extra={'records_parsed': 0})
@@ -169,6 +226,15 @@ def sig_ctx(cfg, seq, cls):
 
 
 def replay(rec):
+    if rec.get('kind') == 'concurrent':
+        from vt.explore import Chooser
+        judge = getattr(warcsuite, rec['judge'])
+        case, result = warcsuite.run_concurrent(rec['params'], Chooser(rec['choices']))
+        problems = judge(case, result)
+        sigs = sorted(set(warcsuite.classify(p) for p in problems))
+        hit = any(rec['signature'].endswith(':%s:concurrent' % warcsuite.classify(p))
+                  for p in problems)
+        return (rec['violation'] if hit else None), (rec['signature'] if hit else None), sigs
     judge = getattr(warcsuite, rec['judge'])
     result = warcsuite.run_case(rec['case'])
     problems = judge(rec['case'], result)
